@@ -27,3 +27,21 @@ func verifSched(point string, conn *TcpConn) {
 		f(point, conn)
 	}
 }
+
+// The same for the listener: verifSchedServer(point, server).
+// Points: "serve.accepted" (serve, right after ln.Accept returned a connection, before testShouldExit).
+
+type verifSrvSchedFn func(point string, srv *TcpServer)
+
+var verifSrvSchedHook atomic.Value // of verifSrvSchedFn
+
+// VerifSetServerSchedHook installs (or, with nil, removes) the listener's schedule-point callback.
+func VerifSetServerSchedHook(f func(point string, srv *TcpServer)) {
+	verifSrvSchedHook.Store(verifSrvSchedFn(f))
+}
+
+func verifSchedServer(point string, srv *TcpServer) {
+	if f, ok := verifSrvSchedHook.Load().(verifSrvSchedFn); ok && f != nil {
+		f(point, srv)
+	}
+}
